@@ -30,12 +30,12 @@ REL_TOL = Fraction(1, 10 ** 12)
 CMP = {'__eq__': 'eq', '__ne__': 'ne', '__gt__': 'gt', '__ge__': 'ge', '__lt__': 'lt', '__le__': 'le'}
 
 
-def check_tables(model, rep, tables: UnitTables):
+def check_tables(model, rep, tables: UnitTables, R='C05.table'):
     n = 0
     for kind, tab in sorted(tables.tables.items()):
         loc = f'{model.classes[kind].module}:{tables.nodes[kind].lineno}'
         if kind not in DIMS:
-            rep.cannot('C05.table', f'{kind}.__UNITS', 'kind unknown to the SI oracle', loc)
+            rep.cannot(R, f'{kind}.__UNITS', 'kind unknown to the SI oracle', loc)
             continue
         si_units = 0
         for unit, val in tab.items():
@@ -44,10 +44,10 @@ def check_tables(model, rep, tables: UnitTables):
             cons = f'{kind}.__UNITS[{unit!r}]'
             want = si_factor(kind, unit)
             if want is None:
-                rep.cannot('C05.table', cons, 'unit symbol is outside the oracle grammar', loc)
+                rep.cannot(R, cons, 'unit symbol is outside the oracle grammar', loc)
                 continue
             if val.eq(want):
-                rep.holds('C05.table', cons, 'equals the SI definition exactly over Q[pi]', loc,
+                rep.holds(R, cons, 'equals the SI definition exactly over Q[pi]', loc,
                           extracted=repr(val), oracle=repr(want))
             else:
                 ratio = val / want
@@ -56,25 +56,25 @@ def check_tables(model, rep, tables: UnitTables):
                     r = ratio.const_value()
                     ok = abs(r - 1) <= REL_TOL
                 if ok:
-                    rep.holds('C05.table', cons, 'equals the SI definition within 1e-12 relative', loc)
+                    rep.holds(R, cons, 'equals the SI definition within 1e-12 relative', loc)
                 else:
                     try:
                         shown = f'{rat_to_float(val):.12g} vs SI {rat_to_float(want):.12g}'
                     except ValueError:
                         shown = f'{val} vs SI {want}'
-                    rep.violation('C05.table', cons, f'factor differs from the SI definition: {shown}', loc,
+                    rep.violation(R, cons, f'factor differs from the SI definition: {shown}', loc,
                                   extracted=repr(val), oracle=repr(want))
             if val.is_const() and val.const_value() == 1:
                 si_units += 1
             # positivity (used by C19's sign reasoning)
             try:
                 if rat_to_float(val) <= 0:
-                    rep.violation('C05.table', cons, 'non-positive unit factor', loc)
+                    rep.violation(R, cons, 'non-positive unit factor', loc)
             except ValueError:
                 pass
         if si_units < 1:
-            rep.violation('C05.table', f'{kind}.__UNITS', 'no unit with factor 1 (the SI unit is missing)', loc)
-    rep.require('C05.table', 60, 'one instance per table entry (66 on the pinned tree)')
+            rep.violation(R, f'{kind}.__UNITS', 'no unit with factor 1 (the SI unit is missing)', loc)
+    rep.require(R, 60, 'one instance per table entry (66 on the pinned tree)')
     rep.analysed['unit_entries'] = n
     rep.analysed['unit_tables'] = len(tables.tables)
 
@@ -99,14 +99,14 @@ def _unit_name(u):
     return None
 
 
-def check_to(model, rep, sx: SX, tables: UnitTables):
+def check_to(model, rep, sx: SX, tables: UnitTables, R='C05.to'):
     ctx = sx.ctx
     kinds = sorted(model.quantity_kinds())
     impls = 0
     for kind in kinds:
         m = model.find_member(kind, 'to')
         if m is None or m.cls == 'UnitBase':
-            rep.violation('C05.to', f'{kind}.to', 'no concrete to() implementation')
+            rep.violation(R, f'{kind}.to', 'no concrete to() implementation')
             continue
         impls += 1
         fam = tables.family(kind)
@@ -117,7 +117,7 @@ def check_to(model, rep, sx: SX, tables: UnitTables):
             S0 = v0.term * Rat.atom(f'F[{fam}:{u0n}]')
             outs = sx.run(m.node, m.module, kind, Ov('self', kind, True))
         except CannotDecide as e:
-            rep.cannot('C05.to', cons, str(e), m.loc)
+            rep.cannot(R, cons, str(e), m.loc)
             continue
         rep.inspect(len(outs))
         copy_vals, inplace_vals = [], []
@@ -197,16 +197,16 @@ def check_to(model, rep, sx: SX, tables: UnitTables):
             problems.append((m.node.lineno, 'an unknown target unit is not rejected with KeyError'))
         if problems:
             for ln, what in problems[:4]:
-                rep.violation('C05.to', cons, what, f'{m.module}:{ln}')
+                rep.violation(R, cons, what, f'{m.module}:{ln}')
         else:
-            rep.holds('C05.to', cons, f'{len(copy_vals)} copying and {len(inplace_vals)} in-place path(s): SI magnitude '
+            rep.holds(R, cons, f'{len(copy_vals)} copying and {len(inplace_vals)} in-place path(s): SI magnitude '
                       f'preserved, unit = target, KeyError on unknown unit', m.loc,
                       extracted=ctx.show(ctx.reduce(copy_vals[-1]))[:200])
-    rep.require('C05.to', 13, 'one instance per quantity kind')
+    rep.require(R, 13, 'one instance per quantity kind')
     rep.analysed['to_implementations'] = impls
 
 
-def check_mirror(model, rep, sx: SX):
+def check_mirror(model, rep, sx: SX, R='C05.mirror'):
     """sub-kinds store private copies of value/unit; their constructor must store the same value as
     the parent's"""
     for sub, base in sorted(SUBKINDS.items()):
@@ -229,7 +229,7 @@ def check_mirror(model, rep, sx: SX):
                 ok, why = False, 'constructor does not store value and unit'
             if any(sx.show(v) != sx.show(vals[0]) for v in vals[1:]) or any(sx.show(u) != sx.show(units[0]) for u in units[1:]):
                 ok, why = False, 'private copies of value/unit are initialised differently'
-        rep.decide(ok, 'C05.mirror', f'{sub}.__init__', why, loc=m.loc)
+        rep.decide(ok, R, f'{sub}.__init__', why, loc=m.loc)
 
 
 # ------------------------------------------------------------------------------------------ comparisons
